@@ -72,6 +72,12 @@ def build():
             v.field_types.update(ast.literal_eval(a['FIELD_TYPES']))
         if 'ORACLES' in a:
             v.oracles.update(ast.literal_eval(a['ORACLES']))
+    # A-classes: UNSET is the only instance of UnsetType
+    um = ix.modules.get('pjrpc.common.common')
+    if um is not None and 'UnsetType' in um.classes and 'UNSET' in um.assigns:
+        gv = v.static_val(('global', um.name, 'UNSET'), key=f'global:{um.name}:UNSET')
+        from . import smt as _smt
+        v.singletons = [(um.classes['UnsetType'], _smt.static_id(gv))]
     return ix, cts, v
 
 
